@@ -4979,7 +4979,7 @@ func (t *Terminal) Loop() error {
 		req := func(evts ...util.EventType) {
 			for _, event := range evts {
 				events = append(events, event)
-				if event == reqClose || event == reqQuit {
+				if event == reqClose || event == reqQuit || event == reqPrintQuery {
 					looping = false
 				}
 			}
